@@ -81,6 +81,7 @@ type BlockPlan struct {
 	Txs            int       `json:"txs"`
 	Blobs          int       `json:"blobs"`
 	DefaultPayload bool      `json:"default_payload"` // bellatrix pre-merge: keep execution disabled
+	PayloadShape   int       `json:"payload_shape,omitempty"` // 0 ordinary; 1 block_hash all zero; 2 sparse: only parent_hash, prev_randao, timestamp (and withdrawals) are non-default
 	SlashSpan      int       `json:"slash_span,omitempty"` // 0: slashed headers/votes from the last two epochs; 1: from any past epoch (other side of fork upgrades); 2: also future epochs
 }
 
@@ -410,6 +411,14 @@ func (c *Chain) BuildBlock(slot uint64, plan *BlockPlan) (sbOut *refspec.SignedB
 				if nb > 0 {
 					kinds["blobs"] = true
 				}
+			}
+			switch plan.PayloadShape {
+			case 1:
+				pl.BlockHash = Root{}
+			case 2: // as close to ExecutionPayload() as a valid non-default payload gets
+				pl.FeeRecipient, pl.StateRoot, pl.ReceiptsRoot, pl.LogsBloom = [20]byte{}, Root{}, Root{}, [256]byte{}
+				pl.BlockNumber, pl.GasLimit, pl.GasUsed, pl.ExtraData, pl.BaseFeePerGas = 0, 0, 0, nil, [32]byte{}
+				pl.BlockHash, pl.Transactions, pl.BlobGasUsed, pl.ExcessBlobGas = Root{}, nil, 0, 0
 			}
 			kinds["payload"] = true
 			if pre.Fork >= refspec.Capella {
